@@ -17,11 +17,9 @@ oracle: a reference history interpreter written from the property text (no Lean,
 from __future__ import annotations
 
 import copy
-import os
 import re
 import shutil
 import signal
-import sys
 import tempfile
 import time
 
@@ -1158,9 +1156,22 @@ def _without_keys(case, **kw):
     return c
 
 
-def shrink_case(case, fails):
+def valid_case(case):
+    """the generator's own invariants (a shrinking step must not leave them): anonymous blocks on distinct lines"""
+    for td in case["templates"]:
+        template_source(td)
+        lines = [s["line"] for s in all_sections(td) if s["kind"] == "ablock"]
+        if len(set(lines)) != len(lines):
+            return False
+    return True
+
+
+def shrink_case(case, fails0):
     """ddmin over the history, then greedy simplification of the templates"""
     case = copy.deepcopy(case)
+
+    def fails(c):
+        return valid_case(c) and fails0(c)
 
     def f_hist(ops):
         c = _without_keys(case, history=list(ops))
@@ -1305,11 +1316,6 @@ def no_early_invalidation_variant(case):
 
 
 KNOWN_VARIANTS = []      # (site, variant function) - filled below
-
-
-def _is_beaker_set_failure(case, diff):
-    return (isinstance(diff.get("impl"), tuple) and diff["impl"][:2] == ("raised", "NotImplementedError")
-            and case["backend"].startswith("beaker") and case["history"][diff["step"]][0] == "S")
 
 
 def no_beaker_set_variant(case):
@@ -1558,6 +1564,14 @@ def run(ctx):
     _BEAKER_SET[0] = ctx.driver().ask("cache const") == "1"
     if not _BEAKER_SET[0]:
         ctx.notes.append("BeakerCacheImpl does not define `set` (Generated/Cache.lean): Beaker histories contain few `set` ops")
+    if "dogpile" in backends:
+        try:
+            a, b = dogpile_shared_region_probe()
+            ctx.notes.append("dogpile.cache Mako plugin, one region shared by two templates with distinct ids: renders %r, %r "
+                             "(the plugin does not namespace keys by Cache.id; third-party code, not counted - dogpile worlds "
+                             "use one region set per template)" % (a, b))
+        except Exception as e:
+            ctx.notes.append("dogpile shared-region probe failed: %r" % (e,))
     n = {"rec": 600, "beaker_memory": 120, "beaker_file": 0, "dogpile": 80} if ctx.quick else \
         {"rec": 9000, "beaker_memory": 1500, "beaker_file": 300, "dogpile": 800}
     err = None
@@ -1578,10 +1592,15 @@ def run(ctx):
 _BEAKER_SET = [True]
 
 
-def _api_probe(be):
-    case = f5_case("/probe1.html", "/probe2.html", be)
-    case["history"] = [["S", 0, "k", "v1", []], ["G", 0, "k", []]]
-    return case
+def dogpile_shared_region_probe():
+    """what dogpile.cache's own Mako plugin does when two templates share a region (informational, third-party code)"""
+    from mako.template import Template
+    from dogpile.cache import make_region
+    regs = {"r0": make_region().configure("dogpile.cache.memory")}
+    args = {"regions": regs, "region": "r0"}
+    t1 = Template('<%page cached="True"/>first', uri="/dp-probe-1.html", cache_impl="dogpile.cache", cache_args=dict(args))
+    t2 = Template('<%page cached="True"/>second', uri="/dp-probe-2.html", cache_impl="dogpile.cache", cache_args=dict(args))
+    return t1.render(), t2.render()
 
 
 # =========================================================================== replay
